@@ -97,7 +97,67 @@ def correspondences(tier, rng):
     def enc(x):
         nodes, root, rd, out = x
         return ([Raw([len(its)] + [v for it in its for v in it.ints] + [int(e), int(d), int(c), int(v_)]) for its, e, d, c, v_ in nodes], root, rd)
-    return [Corr("getAllData", cases, lambda x: x[3], enc=enc)]
+    out = [Corr("getAllData", cases, lambda x: x[3], enc=enc)]
+    # the overflow repairs that cut a subtable in two, on the real otTables objects
+    from fontTools.ttLib.tables import otTables as ot
+    from lib.ser import Opt
+    def nm(g): return "g%d" % g
+    def un(n_): return int(n_[1:])
+    ccases = []
+    for _ in range(N(tier, 400, 5000)):
+        k = rng.randint(0, 9); cov = rng.sample(range(40), k); recs = [rng.randint(0, 999) for _ in range(k)]
+        if k and rng.chance(5): recs = recs[:-1]
+        ccases.append((rng.choice(["pair1", "single2"]), cov, recs))
+    def impl_split_cov(x):
+        kind, cov, recs = x
+        def go():
+            if kind == "pair1":
+                old = ot.PairPos(); old.Format = 1; old.ValueFormat1 = 4; old.ValueFormat2 = 0; old.PairSet = list(recs); new = ot.PairPos()
+            else:
+                old = ot.SinglePos(); old.Format = 2; old.ValueFormat = 4; old.Value = list(recs); new = ot.SinglePos()
+            old.Coverage = ot.Coverage(); old.Coverage.glyphs = [nm(g) for g in cov]
+            ok = ot.splitPairPos(old, new, None) if kind == "pair1" else ot.splitSinglePos(old, new, None)
+            if not ok: return Opt(None)
+            get = (lambda t: t.PairSet) if kind == "pair1" else (lambda t: t.Value)
+            return Opt((([un(g) for g in old.Coverage.glyphs], list(get(old))), ([un(g) for g in new.Coverage.glyphs], list(get(new)))), some=True)
+        return go()
+    def cmp_split_cov(x, io_, mo):
+        # SinglePos format 2 decides by the coverage length, PairPos format 1 by the record count: equal in well-formed tables
+        if len(x[1]) != len(x[2]): return True
+        return io_ == mo
+    out.append(Corr("split_cov", ccases, impl_split_cov, enc=lambda x: (x[1], x[2]), compare=cmp_split_cov))
+    kcases = []
+    for _ in range(N(tier, 400, 5000)):
+        ncls = rng.randint(0, 7); cov = rng.sample(range(40), rng.randint(0, 12))
+        defs = {g: rng.randint(1, max(1, ncls - 1)) for g in cov if rng.chance(65)} if ncls >= 2 else {}
+        kcases.append((cov, list(defs.items()), [rng.randint(0, 999) for _ in range(ncls)]))
+    def impl_split_class(x):
+        cov, defs, rows = x
+        old = ot.PairPos(); old.Format = 2; old.ValueFormat1 = 4; old.ValueFormat2 = 0; old.Class2Count = 1; old.ClassDef2 = ot.ClassDef(); old.ClassDef2.classDefs = {}
+        old.Coverage = ot.Coverage(); old.Coverage.glyphs = [nm(g) for g in cov]
+        old.ClassDef1 = ot.ClassDef(); old.ClassDef1.classDefs = {nm(g): c for g, c in defs}; old.Class1Record = list(rows)
+        new = ot.PairPos()
+        if not ot.splitPairPos(old, new, None): return Opt(None)
+        pack = lambda t: (([un(g) for g in t.Coverage.glyphs], [(un(g), c) for g, c in t.ClassDef1.classDefs.items()]), list(t.Class1Record))
+        return Opt((pack(old), pack(new)), some=True)
+    def oracle_split_class(x):
+        """the PROPERTY on the implementation: for every glyph, the two halves tried in order give the row the whole subtable gave"""
+        cov, defs, rows = x
+        r = impl_split_class(x)
+        if not r.some: return None
+        (a, b) = r.v
+        def look(t, g):
+            (c_, d_), rw = t
+            if g not in c_: return None
+            cl = dict(d_).get(g, 0)
+            return rw[cl] if cl < len(rw) else "out of range"
+        for g in range(40):
+            whole = look(((cov, defs), rows), g); halves = look(a, g)
+            if halves is None: halves = look(b, g)
+            if whole != halves: return "glyph %d: the subtable gives row %r, the two halves give %r" % (g, whole, halves)
+        return None
+    out.append(Corr("split_class", kcases, impl_split_class, oracle=oracle_split_class))
+    return out
 
 # ------------------------------------------------------------------ sweeps
 def _kern_font(n1, n2, ngl_per_class=1, fmt2=True, value2=False, seed=0):
